@@ -157,7 +157,7 @@ Definition parse_ibody (puf : bool) (id : N) : sparser ixstate ix_body :=
       | Err e => (Err e, s)
       | Ok t r =>
           if fields_valid (it_fields t)
-          then (Ok (IxTemplate t) r, {| ix_t := insert (it_id t) t (ix_t s); ix_o := ix_o s |})
+          then (Ok (IxTemplate t) r, {| ix_t := insert (it_id t) t (ix_t s); ix_o := remove (it_id t) (ix_o s) |})
           else (Err EError, s)
       end
     else if id =? ipfix_options_template_id then
@@ -165,7 +165,7 @@ Definition parse_ibody (puf : bool) (id : N) : sparser ixstate ix_body :=
       | Err e => (Err e, s)
       | Ok t r =>
           if fields_valid (io_fields t)
-          then (Ok (IxOTemplate t) r, {| ix_t := ix_t s; ix_o := insert (io_id t) t (ix_o s) |})
+          then (Ok (IxOTemplate t) r, {| ix_t := remove (io_id t) (ix_t s); ix_o := insert (io_id t) t (ix_o s) |})
           else (Err EError, s)
       end
     else
